@@ -210,12 +210,16 @@ func c03Shape(a *analysed, ln gorun.Line) string {
 		}
 		names[d.Name] = d.Q
 	}
+	declsByQ := map[string]*irdump.Decl{}
+	for _, d := range a.Env.Decls {
+		declsByQ[d.Q] = d
+	}
 	var hasBytes func(t *irdump.Ty) bool
 	hasBytes = func(t *irdump.Ty) bool {
 		if t == nil {
 			return false
 		}
-		if t.K == "arr" && t.Len == -1 && t.E != nil && t.E.K == "basic" && (t.E.B == "uint8" || t.E.B == "byte") {
+		if t.K == "arr" && t.Len == -1 && isUint8Kind(t.E, declsByQ) {
 			return true
 		}
 		return hasBytes(t.E) || hasBytes(t.Key)
